@@ -87,6 +87,8 @@ type FuncSpec struct {
 	Modifies []string
 	Sweep    bool
 	Returns  string
+	Frame    string   // "fresh-only": the function writes only memory it allocated itself (verified)
+	Globals  []string // package path suffixes whose init (global initialisers) runs at entry
 	Props    []string // default props for clauses of this function
 	Assumed  bool     // contract comes from the dependency library (not verified)
 	Trusted  string   // reason, if the contract is used but not verified here
@@ -97,6 +99,14 @@ type SpecDB struct {
 	Funcs   map[string]*FuncSpec // by key
 	Pattern []*FuncSpec          // keys containing '*' wildcards
 	Defines map[string]*Define
+	Macros  map[string]*Macro
+}
+
+// Macro: "macro NAME(a, b) = expr" — expanded by evaluating expr with a, b bound.
+type Macro struct {
+	Name   string
+	Params []string
+	Body   Expr
 }
 
 type Define struct {
@@ -138,7 +148,7 @@ func parseClause(rest string, fs *FuncSpec, file string, line int) (*Clause, err
 func shortHash(s string) uint32 { return hashStr(strings.Join(strings.Fields(s), " ")) % 100000 }
 
 var topKeywords = map[string]bool{"func": true, "requires": true, "ensures": true, "ghost": true, "let": true, "site": true, "loop": true,
-	"define": true, "kind": true, "pure": true, "nofx": true, "fresh": true, "mf": true, "setmf": true, "havocobj": true, "havocmf": true, "effect": true, "props": true, "sweep": true,
+	"define": true, "macro": true, "kind": true, "pure": true, "nofx": true, "fresh": true, "inline": true, "mf": true, "setmf": true, "havocobj": true, "havocmf": true, "effect": true, "props": true, "sweep": true, "globals": true, "frame": true,
 	"assert": true, "witness": true, "update": true, "bind": true, "invariant": true, "where": true, "optional": true, "trusted": true, "returns": true}
 
 // parseSpecText parses contract text. prefix is "//@" for in-repo files and "" for dependency specs.
@@ -181,6 +191,24 @@ func parseSpecText(db *SpecDB, text, file, prefix string, assumed bool) error {
 		errf := func(format string, a ...any) error {
 			return fmt.Errorf("%s:%d: %s", file, l.n, fmt.Sprintf(format, a...))
 		}
+		if word == "macro" {
+			m := regexp.MustCompile(`^(\w+)\(([^)]*)\)\s*=\s*(.+)$`).FindStringSubmatch(rest)
+			if m == nil {
+				return errf("bad macro")
+			}
+			body, err := parseSpecExpr(m[3])
+			if err != nil {
+				return errf("%v", err)
+			}
+			mc := &Macro{Name: m[1], Body: body}
+			for _, p := range strings.Split(m[2], ",") {
+				if p = strings.TrimSpace(p); p != "" {
+					mc.Params = append(mc.Params, p)
+				}
+			}
+			db.Macros[mc.Name] = mc
+			continue
+		}
 		if word != "func" && word != "define" && fs == nil {
 			return errf("clause outside func")
 		}
@@ -216,11 +244,15 @@ func parseSpecText(db *SpecDB, text, file, prefix string, assumed bool) error {
 			fs.Props = strings.Fields(strings.ReplaceAll(rest, ",", " "))
 		case "sweep":
 			fs.Sweep = true
+		case "frame":
+			fs.Frame = rest
+		case "globals":
+			fs.Globals = append(fs.Globals, strings.Fields(rest)...)
 		case "returns":
 			fs.Returns = rest
 		case "trusted":
 			fs.Trusted = rest
-		case "pure", "nofx", "fresh":
+		case "pure", "nofx", "fresh", "inline":
 			fs.Kind = word
 		case "kind":
 			fs.Kind = rest
@@ -412,7 +444,7 @@ func sortName(s string) string {
 }
 
 func newSpecDB() *SpecDB {
-	return &SpecDB{Funcs: map[string]*FuncSpec{}, Defines: map[string]*Define{}}
+	return &SpecDB{Funcs: map[string]*FuncSpec{}, Defines: map[string]*Define{}, Macros: map[string]*Macro{}}
 }
 
 // loadDepSpecs reads /verif/contracts/deps/*.spec.
